@@ -278,6 +278,10 @@ pub open spec fn timeout_of(h: HMap) -> Option<nat> {
     if h.contains_key("grpc-timeout"@) && visible_ascii(h["grpc-timeout"@][0]) { timeout_denotes(bytes_as_chars(h["grpc-timeout"@][0])) } else { None }
 }
 ''')
+    u._emit('impl<S> GrpcTimeout<S> {'); u._open_header = 'impl<S> GrpcTimeout<S> {'
+    u.fn(T, 'new', within='impl<S> GrpcTimeout<S>', display='GrpcTimeout::new',
+         ensures=[Clause('G0_the_layer_keeps_the_configured_timeout', 'r.inner == inner && r.server_timeout == server_timeout')])
+    u.close('}')
     u.fn(T, 'call', within='impl<S, ReqBody> Service<Request<ReqBody>> for GrpcTimeout<S>',
          header='impl<S> GrpcTimeout<S> {', close=True,
          sig_edits=[lambda t: t.sub_code('R9', r'Self::Future', 'ResponseFuture<S::Future>'),
